@@ -26,6 +26,8 @@ def sx_v(v):
         return f'(b {int(v[1])})'
     if k == 'sc':
         return '(sc ' + ' '.join(map(str, v[1:])) + ')'
+    if k == 'sct':
+        return '(sct ' + ' '.join(map(str, v[1:])) + ')'
     raise ValueError(v)
 
 
@@ -164,7 +166,9 @@ def o_val(v):
     if k == 'b':
         return bool(v[1]), False
     if k == 'sc':
-        return ('scale', list(v[1:])), False
+        return ('scale', list(v[1:]), 12), False
+    if k == 'sct':
+        return ('scale', list(v[2:]), int(v[1])), False
     raise ValueError(v)
 
 
@@ -180,23 +184,32 @@ def o_num(e, k, dflt):
 
 
 def o_scale(e):
+    """(degrees, steps per octave of the tuning)"""
     if 'scale' in e:
         x = e['scale']
         if not (isinstance(x, tuple) and x[0] == 'scale'):
             raise Raise('scale')
-        return x[1]
-    return SCALES[0]
+        return x[1], x[2]
+    return SCALES[0], 12
+
+
+def o_steps_to_midinote(steps, e, spo):
+    """A pitch in steps of a tuning with `spo` equal steps per octave: one step is 12/spo semitones;
+    gtranspose and root are steps too; octave 5 starts at midinote 60."""
+    steps = steps + o_num(e, 'gtranspose', 0) + o_num(e, 'root', 0)
+    return steps * F(12, spo) + (o_num(e, 'octave', 5) - 5) * 12 + 60
 
 
 def o_midinote_from_degree(e):
-    sc = o_scale(e)
+    sc, spo = o_scale(e)
     d = o_num(e, 'degree', 0) + o_num(e, 'mtranspose', 0)
-    key = 12 * math.floor(d / len(sc)) + sc[math.trunc(d) % len(sc)]
-    return (F(key) + o_num(e, 'gtranspose', 0) + o_num(e, 'root', 0)) / 12 * 12 + (o_num(e, 'octave', 5) - 5) * 12 + 60
+    key = spo * math.floor(d / len(sc)) + sc[math.trunc(d) % len(sc)]
+    return o_steps_to_midinote(F(key), e, spo)
 
 
 def o_midinote_from_note(e):
-    return (o_num(e, 'note', 0) + o_num(e, 'gtranspose', 0) + o_num(e, 'root', 0)) + (o_num(e, 'octave', 5) - 5) * 12 + 60
+    _, spo = o_scale(e)
+    return o_steps_to_midinote(o_num(e, 'note', 0), e, spo)
 
 
 def midicps(m):
@@ -493,7 +506,11 @@ class Gen:
         if k in ('out', 'pan', 'foo', 'bar', 'gate'):
             return self.numv(self.dy(-1, 4, (1, 2, 4)))
         if k == 'scale':
-            return ['sc'] + r.choice(SCALES)
+            if r.random() < 0.5:
+                return ['sc'] + r.choice(SCALES)
+            spo = r.choice([5, 7, 19, 24, 31, 12])
+            n = r.randint(1, min(spo, 8))
+            return ['sct', spo] + sorted(r.sample(range(spo), n))
         if k == 'send_gate':
             return r.choice([['b', 1], ['b', 0], 'none'])
         if k == 'has_gate':
@@ -509,10 +526,16 @@ class Gen:
         ks += [k for k in MODS if r.random() < 0.3]
         ks += r.sample(['amp', 'db', 'velocity'], r.choice([0, 1, 1, 2]))
         ks += [k for k in ('dur', 'stretch', 'legato', 'sustain', 'delta') if r.random() < 0.35]
-        ks += [k for k in ('group', 'add_action', 'out', 'pan', 'foo', 'bar', 'gate', 'scale', 'send_gate', 'has_gate')
+        ks += [k for k in ('group', 'add_action', 'out', 'pan', 'foo', 'bar', 'gate', 'send_gate', 'has_gate')
                if r.random() < 0.2]
+        if r.random() < 0.3:
+            ks.append('scale')
         if r.random() < 0.06:
             ks.append('node_id')          # an explicit node_id is not honoured: play always takes a fresh one
+        if 'scale' in ks and r.random() < 0.6:
+            ks += [k for k in ('root', 'gtranspose') if k not in ks]
+            if not any(k in ks for k in ('freq', 'midinote')) and 'degree' not in ks and 'note' not in ks:
+                ks.append(r.choice(['degree', 'note']))
         r.shuffle(ks)
         return ks
 
@@ -612,7 +635,8 @@ class Check(common.Check):
         'explicit_freq_wins', 'explicit_midinote_wins', 'explicit_amp_wins', 'explicit_delta_wins',
         'explicit_sustain_wins', 'amp_db_over_velocity', 'amp_from_velocity', 'midinote_note_over_degree',
         'midinote_degree_over_freq', 'freq_from_degree', 'freq_default', 'chain_degree_to_midinote',
-        'chain_degree_to_freq', 'player_plays_timetable', 'player_time_prefix_sums',
+        'chain_degree_to_freq', 'chain_degree_to_midinote_steps', 'chain_note_to_midinote_steps',
+        'player_plays_timetable', 'player_time_prefix_sums',
         'ppar_preserves_child_timelines', 'pdur_total', 'pdur_passes_prefix', 'player_ids_fresh',
         'replay_ids_fresh')]
     N_QUICK = 2000
